@@ -113,6 +113,9 @@ where
             version: insert_info.as_ref().map(|info| info.db_version),
         })?;
 
+        #[cfg(feature = "verif-hooks")]
+        klukai_types::verif::point("local.after_commit");
+
         let elapsed = start.elapsed();
         histogram!("corro.agent.changes.processing.time.seconds", "source" => "local")
             .record(start.elapsed());
@@ -596,6 +599,9 @@ pub(crate) async fn execute_schema(agent: &Agent, statements: Vec<String>) -> ey
         }
 
         tx.commit()?;
+
+        #[cfg(feature = "verif-hooks")]
+        klukai_types::verif::point("schema.after_commit");
 
         // drain the pool of RO connections because they might not get the new tables in cr-sqlite!
         agent.pool().drain_read();
